@@ -2148,8 +2148,9 @@ func (e *CoreExtension) filterNumberFormat(value interface{}, args ...interface{
 		intPart = buf.String()
 	}
 
-	// Add back negative sign if needed
-	if isNegative {
+	// Add back negative sign if needed (not for a number that was rounded to
+	// zero: there is no negative zero to print)
+	if isNegative && strings.Trim(str, "-0.") != "" {
 		intPart = "-" + intPart
 	}
 
